@@ -356,3 +356,95 @@ def norm_tx(v):
     ver, ins, outs, wits, lt = v
     return (ver, [tuple(i) for i in ins], [tuple(o) for o in outs],
             None if wits is None else [list(w) for w in wits], lt)
+
+
+# ------------------------------------------------------------------------------------------------
+# `bits tx` through the command line (worker side; harness/cli.py runs bits.__main__.main() in-process)
+#   build : bits tx -txin '{"txid": <rpc-order hex>, "vout": n, "scriptsig": hex}' ... -txout '{"satoshis": n,
+#           "scriptpubkey": hex}' ... -v N -l N --script-witness <hex of one serialised stack> ...
+#           (no option for the sequence: always the default ffffffff); main() RETURNS the hex string
+#   decode: bits tx --decode [-1 fmt] < data   prints json.dumps(tx_deser(data)[0]) (no "raw"), leftover only logged
+# ------------------------------------------------------------------------------------------------
+FINAL_SEQ = b"\xff\xff\xff\xff"
+
+
+def _raise_refusal(r):
+    """a refusal (ERROR return / non-zero exit / escaped exception) -> the exception class; output next to a
+    refusal is returned as a VALUE so that it can never agree with the model's refusal"""
+    import builtins
+    if r["out"]:
+        return ("REFUSED-BUT-WROTE-OUTPUT", r["out"])
+    name = r["exc"] or "RuntimeError"
+    klass = getattr(builtins, name, None)
+    if name == "SystemExit" or not (isinstance(klass, type) and issubclass(klass, Exception)):
+        klass = ValueError
+    msg = "bits tx refused: rc=%r %s" % (r["rc"], r["err"][-120:])
+    try:
+        exc = klass(msg)
+    except TypeError:                      # e.g. UnicodeDecodeError needs five arguments
+        exc = ValueError(name + ": " + msg)
+    raise exc
+
+
+def cli_build_argv(t, style=0):
+    import json
+    ver, ins, outs, wits, lt = t
+    argv = ["tx"]
+    for i in ins:
+        argv += ["-txin" if style % 2 == 0 else "--txin",
+                 json.dumps({"txid": i[0][::-1].hex(), "vout": i[1], "scriptsig": i[2].hex()})]
+    for o in outs:
+        argv += ["-txout" if style % 2 == 0 else "--txout", json.dumps({"satoshis": o[0], "scriptpubkey": o[1].hex()})]
+    if not (style >= 2 and ver == 1):            # style >= 2: leave defaults to the parser
+        argv += ["-v", str(ver)] if (style % 2 == 0 and ver >= 0) else ["--version=%d" % ver]
+    if not (style >= 2 and lt == 0):
+        argv += ["-l", str(lt)] if (style % 2 == 0 and lt >= 0) else ["--locktime=%d" % lt]
+    for w in (wits or []):
+        argv += ["--script-witness=" + ref_stack(w).hex()]
+    return argv
+
+
+def cli_build(t, style=0):
+    import cli
+    t = norm_tx(t)
+    if any(i[3] != FINAL_SEQ for i in t[1]):
+        raise RuntimeError("harness: bits tx has no sequence option")
+    r = cli.run_main(cli_build_argv(t, style))
+    if r["exc"] is not None or (isinstance(r["rc"], str) and r["rc"].startswith("ERROR")) or isinstance(r["rc"], int):
+        return _raise_refusal(r)
+    if r["out"]:                                  # should a later version print instead of returning
+        return bytes.fromhex(r["out"].decode().strip())
+    if not isinstance(r["rc"], str):
+        return ("NO-OUTPUT", repr(r["rc"]))
+    return bytes.fromhex(r["rc"])
+
+
+FMT_FLAGS = {"hex": [[], ["-1x"], ["--input-format=hex"], ["-1", "hex"]],
+             "raw": [["-1"], ["-1", "raw"], ["--input-format=raw"]],
+             "bin": [["-1b"], ["-1", "bin"], ["--input-format=bin"]]}
+
+
+def cli_stdin(buf, fmt, style=0):
+    if fmt == "raw":
+        return bytes(buf)
+    if fmt == "hex":
+        return (buf.hex() + ("\n" if style % 2 == 0 else "")).encode()
+    return ("".join(format(b, "08b") for b in buf) + ("\n" if style % 2 == 0 else "")).encode()
+
+
+def cli_decode(buf, fmt, style=0):
+    """-> (txid, wtxid, tx tuple): exactly the keys of tx_deser's dict (without "raw") or an error"""
+    import cli
+    import json
+    flags = FMT_FLAGS[fmt][style % len(FMT_FLAGS[fmt])]
+    r = cli.run_main(["tx", "--decode"] + flags, stdin=cli_stdin(buf, fmt, style))
+    if r["exc"] is not None or r["rc"] is not None:
+        return _raise_refusal(r)
+    d = json.loads(r["out"].decode())
+    want = {"txid", "wtxid", "version", "txins", "txouts", "locktime"}
+    if not (set(d) == want or set(d) == want | {"witnesses"}):
+        return ("UNEXPECTED-KEYS", sorted(d))
+    d = dict(d)
+    d["raw"] = ""
+    p = canon_parsed_dict(d)
+    return (p[0], p[1], p[3])
